@@ -410,7 +410,7 @@ fn main() {
     "top-level non-nullable fields that are simply absent are not judged (the property only names missing required NESTED values)".into(),
     "the vectors build (wrong vector dimension label) is not exercised here".into(),
   ];
-  let n = ctx.n(150, 4000);
+  let n = ctx.n(150, 40_000);
   let per = ctx.n(60, 100) as usize;
   ctx.run_cases("schema", n, |rng: &mut Rng, l: &mut Local, scratch| {
     let so = SchemaOpts { all_stored: false, p_fast: 0.7, p_nullable: 0.5, want_nested: rng.chance(0.85) };
